@@ -221,6 +221,14 @@ class SymExec:
         args = tuple(self.ev(a, st, depth) for a in e.args)
         kwargs = tuple(sorted((k.arg or '**', self.ev(k.value, st, depth)) for k in e.keywords))
         f = e.func
+        # operator.gt(a, b) - directly or through a local bound to the function - is the comparison a > b
+        opfn = None
+        if isinstance(f, ast.Name) and f.id in st.locals and st.locals[f.id][0] == 'attr' and st.locals[f.id][1] == ('free', 'operator'):
+            opfn = st.locals[f.id][2]
+        elif isinstance(f, ast.Attribute) and isinstance(f.value, ast.Name) and f.value.id == 'operator' and 'operator' not in st.locals:
+            opfn = f.attr
+        if opfn in _OPERATOR_CMP and len(args) == 2 and not kwargs:
+            return ('cmp', _OPERATOR_CMP[opfn], args[0], args[1])
         if isinstance(f, ast.Name) and f.id not in st.locals:
             if self._ntypes is None:
                 self._ntypes = U.namedtuple_types([m.tree for m in self.repo.modules.values()])
@@ -455,6 +463,14 @@ class SymExec:
                     o.status, o.retval = 'run', None
                 return list(fk.states)
             return [st]
+        if isinstance(s, ast.Return) and isinstance(s.value, ast.IfExp) and self.truth(self.ev(s.value.test, st.copy(), depth)) is None:
+            a, b = st.copy(), st
+            outs = []
+            for stt, tv, br in ((a, 'T', s.value.body), (b, 'F', s.value.orelse)):
+                stt.conds = stt.conds + ((tv, U.src(s.value.test)),)
+                stt.events.append(('cond', tv, U.src(s.value.test)))
+                outs += self._stmt(ast.copy_location(ast.Return(value=br), s), stt, depth)
+            return outs
         if isinstance(s, ast.Return):
             try:
                 st.retval = self.ev(s.value, st, depth) if s.value is not None else NONE
@@ -684,6 +700,9 @@ class SymExec:
 class _Fork(Exception):
     def __init__(self, states):
         self.states = states
+
+
+_OPERATOR_CMP = {'gt': 'Gt', 'lt': 'Lt', 'ge': 'GtE', 'le': 'LtE', 'eq': 'Eq', 'ne': 'NotEq', '__gt__': 'Gt', '__lt__': 'Lt', '__ge__': 'GtE', '__le__': 'LtE'}
 
 
 class _Dead(Exception):
